@@ -44,7 +44,7 @@ CLAIMED = {
     'C12': ('bounded symbolic execution (CrossHair+z3) of the four renderers on stats from the real analyze_transactions with symbolic exact-real amounts; json.dumps replaced by a recorder to compare the embedded structures with the analysis; hostile-string parse-back by direct runs',
             LEVEL_TEXT, 'Partly applicable: HTML/JSON parse-back for ALL strings cannot be decided here (json.dumps / html.parser are C and regex boundaries) - 17 hostile strings plus every placeholder token found in the current templates are run directly; formatted figures inside Markdown/text are opaque. ' + COMMON_NOTE, 'DESIGN.md section 2 C12'),
     'C15': ('bounded symbolic execution (CrossHair+z3) of the real migration commands on a real scratch directory with interposed file-system primitives; symbolic crash index, fault index, partial-write mode and initial state; post-state assertions through the real load path',
-            LEVEL_TEXT, 'Bounds: crash/fault index 0..24, partial mode 0..2, 5 initial states; folder-layout migration: crash before / OSError at each effect (one obligation per point, decided by a direct run). Contract: POSIX semantics of the interposed calls; buffered write reaches disk at close. Known finding listed: folder-layout migration is not resumable. ' + COMMON_NOTE, 'DESIGN.md section 2 C15'),
+            LEVEL_TEXT, 'Bounds: crash/fault index 0..24, partial mode 0..2, 5 initial states; folder-layout migration: symbolic crash / fault index 0..40 (the listed point excluded by precondition), plus one direct run per point that names the failing step. Contract: POSIX semantics of the interposed calls; buffered write reaches disk at close. Known finding listed: folder-layout migration is not resumable. ' + COMMON_NOTE, 'DESIGN.md section 2 C15'),
     'C16': ('bounded symbolic execution (CrossHair+z3) of explain_description vs normalize_merchant on rules loaded from template files (symbolic description/amount) and of cmd_explain / cmd_discover / cmd_run with shared recorders (symbolic source flags)',
             LEVEL_TEXT, 'Bounds: description <=2 chars, 3 templates, 2-3 sources. Four known findings listed in known_findings.json (explain stops at tag-only rules, ignores let/variables and most_specific; explain/discover treat supplemental sources as transactions). ' + COMMON_NOTE, 'DESIGN.md section 2 C16'),
     'C20': ('bounded symbolic execution (CrossHair+z3) of the real commands on a real scratch budget whose initial state, arguments and command sequence are symbolic; frame condition over the byte contents of the tree before/after',
